@@ -93,6 +93,10 @@ def respond (req : List String) : Except String String :=
           else if S.any (fun (_, f') => f' < f) then pure "bad:fuzz-not-least"
           else if 0 ≤ guess && S.contains (guess.toNat, 0) && (p, f) != (guess.toNat, 0) then pure "bad:not-at-stated-place"
           else pure "ok" : P String).run' rest
+  | "readlines" :: rest => (do
+      let bytes ← pBytes
+      let ls := splitLines bytes
+      pure (s!"ok {ls.length}" ++ String.join (ls.map fun l => " " ++ showLine l)) : P String).run' rest
   | "strip" :: rest => (do
       let path ← pBytes; let n ← pInt
       pure ("ok " ++ hex (stripPath path n)) : P String).run' rest
